@@ -11,7 +11,7 @@
 //! not the generated one (that is C14's refuting event, reported there) the
 //! case is counted under `skipped/..` and not judged here.
 
-use super::c14::{debug_entries, debug_model, Q};
+use super::c14::{debug_agrees, Q};
 use crate::fw::{CaseResult, Cx, Ev};
 use crate::gen::plist::{self as gp, Line};
 use crate::oracle::plist as op;
@@ -273,7 +273,7 @@ fn check_seq(ev: &mut Ev, scenario: &str, lines: &[Line], doc: &[u8]) -> CaseRes
             return Ok(());
         }
     };
-    if model.len() != lines.len() || debug_entries(&p).ok() != Some(debug_model(&model)) {
+    if model.len() != lines.len() || debug_agrees(&p, &model).is_err() {
         ev.count("skipped/entries-differ-from-generated");
         return Ok(());
     }
